@@ -168,6 +168,15 @@ def gen(seed, tier, want=None):
         if len(n) > len(h) and rng.random() < 0.8:
             n = n[:len(h)]
         emit(lines, cfg, "SPOE" if k % 2 else "SPOEFG", h, n, rng, all_tags=(k % 4 == 0))
+    # ---- gap-vs-run ties: first needle character, k fillers, then the needle again with a camelCase / boundary
+    #      bonus in the middle of the run: the M cell (continue the run) and the P cell (come from the gap) of the
+    #      score matrix tie exactly for particular k, and the carried consecutive bonus then differs ----
+    for k in range(1, (40 if nbase < 5000 else 90)):
+        for nd, mid in (("abc", "aBc"), ("abcd", "aBcd"), ("abc", "a/bc"), ("xyz", "xY z"[0:2] + "z"), ("ab", "aB")):
+            cfg = rand_cfg(rng)
+            h = [ord(nd[0])] + [ord("x") if nd[0] != "x" else ord("q")] * k + [ord(c) for c in mid]
+            n_ = [ord(c) for c in nd]
+            emit(lines, cfg, "F", h, fix_needle(cfg, n_), rng, all_tags=(k % 5 == 0))
     # ---- decoys: a true occurrence inside a word followed by a better-placed FALSE candidate that shares
     #      only its first character(s) with the needle (and the other way round) ----
     for k in range(nbase // 6):
